@@ -40,9 +40,9 @@ func (s *JsonObjectBuilder) KeyCount() int {
 func (s *JsonObjectBuilder) WriteInferred(key, val string) {
 	if isNumeric(val) {
 		s.WriteLiteral(key, val)
-	} else if strings.EqualFold(val, "true") {
+	} else if len(val) == 4 && strings.EqualFold(val, "true") {
 		s.WriteLiteral(key, "true")
-	} else if strings.EqualFold(val, "false") {
+	} else if len(val) == 5 && strings.EqualFold(val, "false") { // same length: ASCII only, not "fal\u017fe"
 		s.WriteLiteral(key, "false")
 	} else {
 		s.WriteString(key, val)
